@@ -218,19 +218,25 @@ def junit_counts(ctx, cr):
         pairs = set()
 
         class H(ai.Hooks):
+            lazy_pipes = True       # `bucket.iter().map(|r| ..)` chains are read as the loops they abbreviate
+
             def call(self, a, st, term, callee, args):
                 p = M.norm_path(callee.get("path", ""))
                 decl = M.norm_path(callee.get("decl", ""))
                 mon = st.mon or Mon()
-                if st.top is not st.frames[0]:
+                if st.top is not st.frames[0] and st.top.body.get("file") != "<model>":
                     return None
-                if decl == "std::iter::IntoIterator::into_iter":
+                if st.top is st.frames[0] and term["args"] and (decl == "std::iter::IntoIterator::into_iter" or p.endswith(("]>::iter", "]::iter", "Vec::iter"))):
                     fld = field_of_receiver(cr, f, term["args"][0])
+                    if fld is None:
+                        return None         # not one of the buckets (e.g. an adaptor chain handed to a `for` loop)
                     return [(("sym", "ITER:%s" % fld), mon)]
                 if decl == "std::iter::Iterator::next" and term.get("to") is not None:
                     it = a.resolve(st, args[0])
                     if it[0] == "ref":
                         it = a.resolve(st, a.read_at(st, it[1], it[2]))
+                    if ai.is_pipe(it):
+                        return None         # an adaptor chain: the engine steps it, and its source comes back here
                     name = it[1] if it[0] == "sym" else "?"
                     key = "n:" + name
                     if mon.get(key):
